@@ -11,7 +11,6 @@
 package zzverif
 
 import (
-	"sync"
 	"context"
 	"encoding/json"
 	"fmt"
@@ -20,6 +19,7 @@ import (
 	"sort"
 	"strconv"
 	"strings"
+	"sync"
 	"time"
 )
 
@@ -145,6 +145,7 @@ func OneOf(name string, vals ...string) string {
 	}
 	return vals[i]
 }
+
 // OneOfInt64: a value from a finite pool, chosen by the solver.
 func OneOfInt64(name string, vals ...int64) int64 {
 	if len(vals) == 1 {
@@ -208,7 +209,7 @@ func Yield() {}
 func FirstNow() time.Time { return firstNow }
 
 // LastNow returns the most recent reading of the controlled clock.
-func LastNow() time.Time { return lastNow }
+func LastNow() time.Time              { return lastNow }
 func Since(t time.Time) time.Duration { return Now().Sub(t) }
 func ClockMonotone()                  {}
 
@@ -226,20 +227,25 @@ func Assert(c bool, msg string) {
 		fmt.Printf("VERIF-REPLAY: ASSERT-FAILED %s\n", msg)
 	}
 }
-func Reach(label string)            {}
-func And(a, b bool) bool            { return a && b }
-func Or(a, b bool) bool             { return a || b }
-func Not(a bool) bool               { return !a }
-func Implies(a, b bool) bool        { return !a || b }
-func EqStr(a, b string) bool        { return a == b }
-func EqBytes(a, b []byte) bool      { return string(a) == string(b) }
-func Known(id string, pred bool)    {}
-func ClearKnown()                   {}
-func Unwind(n int)                  {}
-func PanicsAre(kind string)         {}
+func Reach(label string)           {}
+func And(a, b bool) bool           { return a && b }
+func Or(a, b bool) bool            { return a || b }
+func Not(a bool) bool              { return !a }
+func Implies(a, b bool) bool       { return !a || b }
+func EqStr(a, b string) bool       { return a == b }
+func EqBytes(a, b []byte) bool     { return string(a) == string(b) }
+func Known(id string, pred bool)   {}
+func ClearKnown()                  {}
+func Unwind(n int)                 {}
+func PanicsAre(kind string)        {}
 func Symbolic() bool               { return false }
-func Observe(tag string, v ...any)  {}
-func Crash()                        { panic(crashSignal{}) }
+func Observe(tag string, v ...any) {}
+
+// OutOfModel: a harness model was asked something it does not model; the engine reports the
+// path as out of encoding (inconclusive), a native run panics.
+func OutOfModel(msg string) { panic("out of model: " + msg) }
+
+func Crash() { panic(crashSignal{}) }
 func IteInt64(c bool, a, b int64) int64 {
 	if c {
 		return a
@@ -252,6 +258,7 @@ func IteInt(c bool, a, b int) int {
 	}
 	return b
 }
+
 // CallSiteConst: under the engine, the integer constant passed as argument `arg`
 // at the occurrence-th static call to `callee` inside function `fn` of the real
 // program (read from its SSA). Natively the value recorded by the engine is used.
@@ -343,7 +350,9 @@ type FakeBackend struct {
 	Steps      int
 }
 
-func NewFakeBackend() *FakeBackend { return &FakeBackend{Files: map[string][]byte{}, NoFault: map[string]bool{}} }
+func NewFakeBackend() *FakeBackend {
+	return &FakeBackend{Files: map[string][]byte{}, NoFault: map[string]bool{}}
+}
 
 func (f *FakeBackend) step(op, path string, mutating bool) error {
 	f.Steps++
